@@ -250,9 +250,20 @@ def setup_fs(sr, u, cfg, shape, tagprefix, lens=(1, 0, 2)):
         sr.do('join %sP %sU %s' % (tagprefix, tagprefix, hx(b'p')))
         sr.do('create_dir %sP' % tagprefix)
         sr.do('fs %s alt %sP' % (root, tagprefix))
-    elif cfg == 'ovl':
+    elif cfg in ('ovl', 'ovl_lowerpre'):
         sr.do('fs %sL0 mem' % tagprefix)
         sr.do('fs %sL1 mem' % tagprefix)
+        if cfg == 'ovl_lowerpre':
+            # the pre-existing entries live in the lower layer only (built through the lower layer's own API)
+            st.define_paths(tagprefix + 'L1', tagprefix + 'LL_')
+            for v, k in shape:
+                if k == 'd':
+                    sr.do('create_dir %sLL_%s' % (tagprefix, v))
+                else:
+                    name = 'c_' + v
+                    if name not in sr.syms:
+                        sr.syms[name] = sym_content(sr.ex, 1, name)
+                    sr.do('write %sLL_%s $%s' % (tagprefix, v, name))
         sr.do('fs %s ovl %sL0 %sL1' % (root, tagprefix, tagprefix))
     else:
         raise ValueError(cfg)
@@ -261,6 +272,9 @@ def setup_fs(sr, u, cfg, shape, tagprefix, lens=(1, 0, 2)):
     t = Tree(u)
     fi = 0
     for v, k in shape:
+        if cfg == 'ovl_lowerpre':
+            t.n[v] = 'd' if k == 'd' else ('f', sr.syms['c_' + v])
+            continue
         if k == 'd':
             r = sr.do('create_dir %s%s' % (tagprefix, v))
             t.n[v] = 'd'
